@@ -10,9 +10,9 @@ A15Plan plan;
 bool done;
 enum { F_CUT = 0, F_CAPACITY };
 const char *fault_names[] = {"channel_cut", "capacity_exhausted", nullptr};
-enum { P_CUT_MID_VALUE = 0, P_CUT_AT_BOUNDARY, P_ALL_READ, P_EXACT_FIT, P_ONE_OVER, P_REJECTED, P_EMPTY_CONTAINER, P_NESTED_VECTOR };
+enum { P_CUT_MID_VALUE = 0, P_CUT_AT_BOUNDARY, P_ALL_READ, P_EXACT_FIT, P_ONE_OVER, P_REJECTED, P_EMPTY_CONTAINER, P_NESTED_VECTOR, P_READER_ATTACHED, P_LARGE_VALUE, P_HUGE_STRING };
 const char *probe_names[] = {"cut_made_a_read_throw", "cut_at_value_boundary", "all_values_read_back", "fixed_writer_exact_fit", "fixed_writer_one_byte_over",
-                             "fixed_writer_rejected_a_write", "empty_string_or_vector", "nested_vector", "reader_attached_while_writing_finished", nullptr};
+                             "fixed_writer_rejected_a_write", "empty_string_or_vector", "nested_vector", "reader_attached_while_writing_finished", "string_or_vector_of_255_to_2^20_elements", "string_of_16MiB_or_more", nullptr};
 const char *tn[] = {"u8", "i16", "i32", "u64", "float", "double", "pod-struct", "string", "c-string", "vector<int>", "vector<string>", "vector<vector<int>>",
                     "ArrayView", "OwnedArray", "FixedArray", "FixedArrayView"};
 void reset()
@@ -26,6 +26,7 @@ void do_plan(int tier)
   plan.mode = m < 2 ? 0 : (m < 4 ? 1 : (m < 6 ? 2 : 3));
   if (plan.mode != 2) {
     plan.nvals = (int)sim_plan(A15_MAXVALS + 1);
+    bool huge_used = false;  // at most one string of 16 MiB or more per run
     for (int i = 0; i < plan.nvals; i++) {
       A15Value &v = plan.vals[i];
       v.type = (int)sim_plan(A15_NTYPES);
@@ -34,6 +35,18 @@ void do_plan(int tier)
       v.len = lens[sim_plan(tier ? 8 : 7)];
       if (v.type == A15_VEC_STRING || v.type == A15_VEC_VEC_INT)
         v.len = (int)sim_plan(5);
+      // sizes around the powers of two where staging buffers, step sizes and length fields change
+      if ((v.type == A15_STRING || v.type == A15_VEC_INT) && sim_plan(40) == 0) {
+        static const int big[] = {255, 256, 4095, 4096, 65535, 65536, 65537, (1 << 20) - 1, (1 << 20) + 1};
+        v.len = big[sim_plan(v.type == A15_STRING ? 9 : 7)];
+        sim_probe(P_LARGE_VALUE);
+        if (v.type == A15_STRING && !huge_used && sim_plan(4) == 0) {
+          static const int huge[] = {(1 << 24) - 1, 1 << 24, (1 << 24) + 1, 20 << 20, (1 << 25) + 5};
+          v.len = huge[sim_plan(5)];
+          huge_used = true;
+          sim_probe(P_HUGE_STRING);
+        }
+      }
       for (int k = 0; k < 4; k++)
         v.sub[k] = lens[sim_plan(6)];
       if (v.len == 0 && v.type >= A15_STRING)
